@@ -432,6 +432,8 @@ struct Stats {
     dup_admitted: u64,
     ref_agree: u64,
     ref_total: u64,
+    ref_model_stricter: u64,
+    ref_model_laxer: u64,
 }
 
 struct Outcome {
@@ -630,6 +632,8 @@ async fn check_history_async(h: &History) -> Outcome {
     let model = reference_model(h, &times);
     st.ref_total += dec.len() as u64;
     st.ref_agree += dec.iter().zip(model.iter()).filter(|(a, b)| a == b).count() as u64;
+    st.ref_model_stricter += dec.iter().zip(model.iter()).filter(|(a, b)| **a && !**b).count() as u64;
+    st.ref_model_laxer += dec.iter().zip(model.iter()).filter(|(a, b)| !**a && **b).count() as u64;
 
     // run 2..: the history projected onto each key
     if h.n_keys > 1 {
@@ -798,6 +802,8 @@ fn absorb(report: &mut Report, h: &History, o: Outcome, origin: &str) {
     report.count("duplicates that were themselves admitted (information)", s.dup_admitted);
     report.count("reference model: attempts compared (information)", s.ref_total);
     report.count("reference model: agreements (information)", s.ref_agree);
+    report.count("reference model: limiter admitted where the exact model rejects (information)", s.ref_model_stricter);
+    report.count("reference model: limiter rejected where the exact model admits (information)", s.ref_model_laxer);
     if s.rejections > 0 {
         report.count("histories with at least one rejection", 1);
     }
@@ -820,7 +826,12 @@ fn absorb(report: &mut Report, h: &History, o: Outcome, origin: &str) {
 }
 
 fn main() {
-    let cli = Cli::parse();
+    let mut cli = Cli::parse();
+    if cli.replay.is_some() && !std::env::args().any(|a| a == "--evidence") {
+        // a replay judges one history; keep the tier evidence of the property untouched
+        let root = std::env::var("VERIF_ROOT").unwrap_or_else(|_| "/verif".into());
+        cli.evidence = std::path::PathBuf::from(format!("{root}/.run/{}-replay-evidence.json", cli.prop));
+    }
     report::watchdog(&cli.prop, 900);
     let mut report = Report::new(
         &cli,
@@ -852,8 +863,6 @@ fn main() {
                     println!("[{}] replay: {} — {}", cli.prop, f.signature, f.what);
                 }
                 report.sample(sample_json(&h, None));
-                report.add_distinct("replay");
-                report.add_distinct(&format!("replay/{:016x}", h.fingerprint()));
                 absorb(&mut report, &h, o, "replay");
             }
         }
